@@ -327,22 +327,72 @@ def judge(data, st, case):
                                  % (ln, col, str(err)), case)
 
     # 2. object model from bytes
+    t1 = e1 = None
+
     try:
-        ns.DiffX.from_bytes(data)
-    except ns.BaseDiffXError:
-        pass
+        t1 = ns.DiffX.from_bytes(data)
+    except ns.BaseDiffXError as e:
+        e1 = e
     except Exception as e:
+        e1 = e
         where = sut.innermost_pydiffx_frame(e)
         st.violation('from_bytes:%s@%s:%s' % (type(e).__name__, where[0],
                                               where[1]), repr(e), case)
 
-    # 3. object model from a stream: closed in both outcomes
+    # 3. object model from a stream: closed in both outcomes, and the same
+    #    result as from bytes and as an explicitly constructed DOM reader
     stream = io.BytesIO(data)
+    t2 = e2 = None
 
     try:
-        ns.DiffX.from_stream(stream)
-    except Exception:
-        pass
+        t2 = ns.DiffX.from_stream(stream)
+    except Exception as e:
+        e2 = e
+
+    t3 = e3 = None
+
+    try:
+        t3 = ns.DiffXDOMReader(ns.DiffX).parse(io.BytesIO(data))
+    except Exception as e:
+        e3 = e
+
+    from dxv import trees
+
+    for label, t, e in (('from_stream', t2, e2), ('DiffXDOMReader', t3, e3)):
+        if (t is None) != (t1 is None) or type(e) is not type(e1):
+            st.violation('loading-paths-disagree',
+                         'from_bytes: %r / %s: %r' % (e1 or 'ok', label,
+                                                      e or 'ok'), case)
+        elif t is not None and not trees.snap_eq(trees.snapshot(t),
+                                                 trees.snapshot(t1)):
+            st.violation('loading-paths-disagree',
+                         '%s gives a different tree than from_bytes: %s'
+                         % (label, trees.snap_diff(trees.snapshot(t1),
+                                                   trees.snapshot(t))), case)
+
+    # the tree carries what the streaming reader yielded
+    if t1 is not None and err is None and recs:
+        want = []
+
+        for r in recs:
+            kind = spec.kind_of(r['section'])
+            c = None
+
+            if kind != 'container':
+                c = r.get(foreign.CONTENT_KEY[kind])
+
+                if not c:
+                    continue
+
+            want.append((r['section'], c))
+
+        got = trees.content_list(trees.snapshot(t1))
+        got = [('diffx', None) if i == 0 else x for i, x in enumerate(got)]
+
+        if got != want:
+            st.violation('tree-differs-from-streamed-records',
+                         'object model: %r, reader: %r'
+                         % (_short(got), _short(want)), case)
 
     if not stream.closed:
         st.violation('from_stream:stream-left-open',
@@ -426,6 +476,11 @@ def io_cases(draw):
         return draw(corrupted())
 
     return {'data': draw(base_files())}
+
+
+def _short(v):
+    s = repr(v)
+    return s if len(s) < 300 else s[:300] + '...'
 
 
 def run_case(case, st):
